@@ -113,6 +113,12 @@ def load_functions(path, crate):
                         while f'{cur.name}#{k}' in fns:
                             k += 1
                         cur.name = f'{cur.name}#{k}'; fns[cur.name] = cur
+            elif line.startswith('const ') and line.rstrip().endswith('= {'):
+                m = re.match(r'^const (.+): (.+?) = \{$', line.rstrip('\n'))
+                cur = None
+                if m:
+                    cur = Fn(m.group(1), '', m.group(2), crate)
+                    fns.setdefault(cur.name, cur)
             elif line.startswith('}'):
                 cur = None
             elif cur is not None:
